@@ -195,6 +195,10 @@ Definition parse_cmap6 (src : list Z) : res cmap610 :=
     if zlen src <? 10 + n * 2 then Err e_cmap
     else do es <- u16_array src 10 0 (Z.to_nat n); Ok (mkCmap610 first es).
 
+(* newCmap10 keeps the entries up to U+10FFFF only *)
+Definition clamp10 (first : Z) (es : list Z) : list Z :=
+  if 1114111 <? first then [] else zfirstn (1114111 - first + 1) es.
+
 (* ParseCmapSubtable10 + newCmap10: firstCode = rune(uint32) wraps to a negative int32 above 0x7FFFFFFF *)
 Definition parse_cmap10 (src : list Z) : res cmap610 :=
   if zlen src <? 20 then Err e_cmap
@@ -202,7 +206,9 @@ Definition parse_cmap10 (src : list Z) : res cmap610 :=
     let first := get32 (skipn 12 src) in
     let n := get32 (skipn 16 src) in
     if zlen src <? 20 + n * 2 then Err e_cmap
-    else do es <- u16_array src 20 0 (Z.to_nat n); Ok (mkCmap610 (sint32 first) es).
+    else do es <- u16_array src 20 0 (Z.to_nat n);
+         (* newCmap10 (since the repair of C11-F54): the entries past U+10FFFF are dropped *)
+         Ok (mkCmap610 (sint32 first) (clamp10 first es)).
 
 (* cmap6or10.Lookup(r); r is an int32 *)
 Definition lookup610 (c : cmap610) (r : Z) : res (option Z) :=
